@@ -2306,6 +2306,18 @@ int32_t tls13EncodeAlert(ssl_t *ssl,
     if (ENCRYPTING_RECORDS(ssl))
     {
         mustEncrypt = PS_TRUE;
+        /* What the caller has to make room for on SSL_FULL: content type,
+           record padding and tag as well. Without them a padded alert never
+           fitted, and the caller gave up without having sent it. */
+        messageSize += 1 + TLS_GCM_TAG_LEN;
+        if (ssl->tls13BlockSize > 0)
+        {
+            messageSize += tls13GetPadLen(ssl, 2);
+        }
+        else
+        {
+            messageSize += ssl->tls13PadLen;
+        }
     }
 
     /*
